@@ -100,12 +100,18 @@ def c03(ctx):
 
 def c06(ctx):
     q = ctx.quick
-    plain = {"PreOps": False, "InPlaceOps": False, "CMax": 6, "DMax": 6}
+    plain = {"PreOps": False, "InPlaceOps": False, "SmallPool": False, "CMax": 6, "DMax": 6}
     ctx.tlc("KyberPairing", cfg(constants=plain, invariants=["PairLaws"], view="ViewOperands"), name="C06_mc_laws")
     ctx.tlc("KyberPairing", cfg(constants=plain, invariants=["TypeOK"], view="View"), name="C06_mc")
     out = os.path.join(ctx.tmp, "C06_bfs.ndjson")
     ctx.tlc("KyberPairing", cfg(constants=plain, invariants=["Emit"]), name="C06_gen_bfs", collect=out)
     ctx.run_vh("pairing", ["-in", out, "-bindings", 2 if q else 4, "-max", 500 if q else 0])
+    # every arithmetic pre-op on either side followed by every pairing of the (non-normalised) results: exhaustive
+    # over a reduced pool, so that e.g. "negate an affine G2 point, then pair" is replayed whatever the seed
+    sweep = dict(plain, PreOps=True, SmallPool=True)
+    out3 = os.path.join(ctx.tmp, "C06_bfs_preops.ndjson")
+    ctx.tlc("KyberPairing", cfg(constants=sweep, invariants=["Emit"]), name="C06_gen_bfs_preops", collect=out3)
+    ctx.run_vh("pairing", ["-in", out3, "-bindings", 2 if q else 4, "-max", 0])
     full = dict(plain, PreOps=True, InPlaceOps=True)
     acc = dict(plain, InPlaceOps=True)
     if not q:
